@@ -155,7 +155,11 @@ func buildPGP(primary *pgpKeyMat, ids []pgpIdentity, subs []pgpSubkey, unhashedI
 			for k := n0; k < len(b.regions); k++ {
 				b.alts[k] = first
 			}
-			id.flags, id.sigCreated, id.lifetime = id.second.flags, id.second.sigCreated, id.second.lifetime
+			// RFC 4880 5.2.3.3: of several self-signatures the most recent one speaks for the identity, wherever it stands
+			// in the file (key servers and Sequoia write newest first, GnuPG oldest first)
+			if id.second.sigCreated > id.sigCreated {
+				id.flags, id.sigCreated, id.lifetime = id.second.flags, id.second.sigCreated, id.second.lifetime
+			}
 		}
 		if thirdPartyCerts != nil {
 			// a certification by someone else's key (type 0x10): says nothing about usage, creation or expiry of this key
@@ -448,6 +452,10 @@ func genC11(tier string, r *rng) {
 		if pi%2 == 0 {
 			// Bob's expiry was extended two days later: a second, newer self-signature follows the first
 			ids[1].second = &pgpIdentity{flags: 3, sigCreated: 1700000200 + 172800, lifetime: 86400 * 730}
+			if pi%4 >= 2 {
+				// newest first: the second signature in the file is the older, superseded one
+				ids[1].second = &pgpIdentity{flags: 0x23, sigCreated: 1700000200 - 86400*30, lifetime: 86400 * 90}
+			}
 		}
 		signSub := fs[[]int{3, 6, 0, 4, 6, 3, 3}[pi]](1700000300)
 		encSub := newECDHKey(1700000400, pi%2 == 0, nil, r)
